@@ -79,8 +79,9 @@ PROP = {'gen': ['octree'],
                'widths cover 2^56 pixels; one row of the error diffusion keeps every slot within 255.0 (the binary32 exactness itself is an '
                'argument in design/C13.md). Models tied to the code by exact differential runs incl. sub-sampled images up to 10k pixels, '
                'crops of large parents, huge requested sizes and the Rnd stream.',
- 'level_note': 'Trusted: Coq kernel + vm_compute; hand-written models validated by the correspondence run; '
-               'rasterize blend_over enters as an oracle (effective pixels). No axioms.',
+ 'level_note': 'Trusted: Coq kernel + vm_compute; translate/octree_types.py (declared widths); hand-written models validated by the '
+               'correspondence run; rasterize blend_over enters as an oracle (effective pixels); the error rows are modelled in Z (binary32 '
+               'exactness argued, not proved). Restricted to images of at most 2^56 pixels and requested sizes >= 1. No axioms.',
  'technique': 'Coq proof (k-d invariant, octree measure/invariants, induction over pixels) + model/implementation correspondence',
  'design_ref': 'DESIGN.md 6.13',
  'n_quick': 600,
@@ -90,14 +91,14 @@ PROP = {'gen': ['octree'],
  'trusted_base': [KERNEL,
                   'hand-written models Image/KDTree.v, Image/Octree.v, Image/Quantize.v of src/image.rs, tied to the code by the '
                   'correspondence run (exact equality of palettes, indices, octree dumps)',
-                  'translate/octree_types.py: field types of OcTreeLeaf / OcTreeInfo / ColorError / KDNode / Rnd and the casts feeding the '
-                  'accumulators are re-extracted from the source each run (Gen/TabOctree.v); the model checks every accumulator against them',
+                  'translate/octree_types.py: field types of OcTreeLeaf / OcTreeInfo / ColorError / KDNode / Rnd and the k-d distance type are '
+                  're-extracted from the source each run (types only, Gen/TabOctree.v); the model checks every leaf accumulator against them; '
+                  'OcTreeInfo sums are width-pinned, not checked per operation',
                   'rasterize::RGBA::blend_over (alpha compositing) is an oracle: the harness passes effective pixels',
-                  'Floyd-Steinberg errors are modelled in Z sixteenths instead of f32: justified by C13_dither_slots (every slot is a '
-                  'multiple of 1/16 within 255.0, so each binary32 operation of the code is exact) and by the exact '
-                  'correspondence of dithered index images',
+                  'Floyd-Steinberg errors are modelled in Z sixteenths instead of f32: an argument (lemma C13_dither_slots bounds every slot of '
+                  'one row by 255.0; multiples of 1/16 below 2^8 are exact in binary32), supported by the exact correspondence of dithered '
+                  'index images; not a Coq statement about floats',
                   HARNESS],
  'assumptions': ['an image has at most 2^56 pixels (OctreeProofs.max_pixels; 2^58 bytes of RGBA): under it the octree accumulators '
                  'of the declared widths (regenerated, Gen/TabOctree.v) provably never overflow',
-                 'requested palette size >= 1 (0 divides by zero in from_image); every size up to usize::MAX is covered since the fix 38c2d5c (saturating product)',
-                 'usize accumulators do not overflow (needs > 2^56 pixels)']}
+                 'requested palette size >= 1 (0 divides by zero in from_image); every size up to usize::MAX is covered since the fix 38c2d5c (saturating product)']}
